@@ -103,9 +103,11 @@ def inspect_file(path, fmt):
 def impl(case):
     fmt = case["fmt"]
     ext = fmt.split("+")[0]
-    path = _dir / ("g" + ext)
+    path = _dir / ("g.chr1" + ext)  # a per-chromosome style name beside an unrelated older fileset g.*
     for f in _dir.glob("g.*"):
         f.unlink()
+    if ext == ".pgen":
+        GF.decoy_fileset(_dir / "g")
     content = dict(case)
     if case.get("stale_index"):
         import pysam
@@ -137,7 +139,32 @@ def impl(case):
     # the streaming iterator yields the same records
     it = getattr(D, "GenotypesPLINK" if ext == ".pgen" else case["reader"])(path, log=SD.silent_log())
     recs = [[[int(x) for x in row] for row in np.asarray(rec.data)] for rec in it.__iter__()]
-    return {"disk": disk, "read": back, "iter_rows": len(recs)}
+    obs = {"disk": disk, "read": back, "iter_rows": len(recs)}
+    if ext != ".pgen" and not case.get("stale_index") and C.plumb(case, "stream", 12) == 0:
+        # the written VCF / BCF piped into another process that reads /dev/stdin (a stream has no index and cannot be read
+        # twice): the matrix that comes back is the same.  A process of its own with a time limit: htslib blocks inside C when
+        # a pipe is mishandled, where no Python time-out reaches
+        import json
+        import subprocess
+        import sys
+
+        code = (
+            "import sys, json; sys.path.insert(0, %r); sys.path.insert(0, %r)\n"
+            "from harness import gtio, simdata as SD, common as C\n"
+            "from haptools import data as D\n"
+            "r = getattr(D, %r)('/dev/stdin', log=SD.silent_log()); r.read()\n"
+            "print('SNAP' + C.jdump(C.canon(gtio.snapshot(r))))\n"
+        ) % (str(C.REPO), str(C.VERIF), case["reader"])
+        try:
+            pr = subprocess.run([sys.executable, "-c", code], input=open(path, "rb").read(), capture_output=True, timeout=60)
+            m = [l for l in pr.stdout.decode(errors="replace").splitlines() if l.startswith("SNAP")]
+            if not m:
+                obs["stream_differs"] = "reading the piped file failed: " + pr.stderr.decode(errors="replace")[-200:]
+            elif json.loads(m[-1][4:]) != json.loads(C.jdump(C.canon(back))):
+                obs["stream_differs"] = "another matrix"
+        except subprocess.TimeoutExpired:
+            obs["stream_differs"] = "the reader did not finish within 60 s"
+    return obs
 
 
 def expected_variants(case, with_alleles=True):
@@ -189,6 +216,8 @@ def equiv_pgen(w, r):
 def oracle(case, obs):
     if "error" in obs:
         return f"write/read raised {obs}"
+    if obs.get("stream_differs"):
+        return f"the written {case['fmt']} file piped into a process that reads /dev/stdin does not come back as the same file read by name does: {obs['stream_differs']}"
     pg = case["fmt"].startswith(".pgen")
     data = case["data"] if not case["drop_phase_plane"] else [[[c[0], c[1], 1] for c in r] for r in case["data"]]
     for name in ("disk", "read"):
